@@ -158,17 +158,24 @@ fn worker(id: &str, tier: &str, seed: u64, out: &str) -> i32 {
         seed,
         tier,
     });
-    let n_cases = std::env::var("VMON_CASES")
-        .ok()
+    let argv: Vec<String> = std::env::args().collect();
+    let n_cases = argv
+        .get(6)
+        .cloned()
+        .or_else(|| std::env::var("VMON_CASES").ok())
         .and_then(|s| s.parse().ok())
         .unwrap_or(match tier {
             Tier::Quick => def.cases_quick,
             Tier::Thorough => def.cases_thorough,
         });
-    let threads: usize = std::env::var("VMON_THREADS")
-        .ok()
+    let threads: usize = argv
+        .get(7)
+        .cloned()
+        .or_else(|| std::env::var("VMON_THREADS").ok())
         .and_then(|s| s.parse().ok())
         .unwrap_or(16);
+    // optional: first case number (so that sharded processes explore different cases)
+    let first_case: u64 = argv.get(8).and_then(|s| s.parse().ok()).unwrap_or(0);
     let soft_deadline = Instant::now()
         + Duration::from_secs(match tier {
             Tier::Quick => def.watchdog_quick,
@@ -177,7 +184,8 @@ fn worker(id: &str, tier: &str, seed: u64, out: &str) -> i32 {
     util::install_panic_hook();
     let workdir = PathBuf::from(out).parent().unwrap().to_path_buf();
     util::set_workdir(&workdir);
-    let next = Arc::new(AtomicU64::new(0));
+    let next = Arc::new(AtomicU64::new(first_case));
+    let n_cases = n_cases + first_case;
     let timed_out = Arc::new(AtomicBool::new(false));
     let total = Arc::new(Mutex::new(ev::Ev::new()));
     let mut handles = Vec::new();
